@@ -269,3 +269,28 @@ PROPS["C16"] = dict(
                 "logically from goroutine dumps, never from elapsed time alone."),
     level_note="Trusted: the hang rule's reading of goroutine dumps; the 40 ms grace before cancelling the context of calls that may legitimately wait only affects which admissible result is expected.",
 )
+
+PROPS["C01"] = dict(
+    race=False,
+    shards={"quick": 8, "thorough": 16},
+    level="exploration",
+    design_ref="DESIGN.md §1 C01",
+    technique="runtime monitor: reference chain-segment model + differential twin run, with hook log, publisher request log and store inspection",
+    rule=("ad-chain: seeded configurations over chain length 1..6 (head index), head = queried root | WithHeadAdCid, stop = none | SetLatestSync | "
+          "WithLastKnownSync | WithStopAdCid on the chain (incl. equal to the head, newer than the head) | off-chain stop CID, WithAdsResync, depth "
+          "= none | AdsDepthLimit | FirstSyncDepth | ScopedDepthLimit (incl. -1) and pairs, each 1..L+1, segment size = disabled | "
+          "SegmentDepthLimit | ScopedSegmentDepthLimit 1..L+1, any subset of pre-stored blocks, strict/non-strict selector, plain and "
+          "libp2p-HTTP discovery mounts. A real Subscriber syncs a real Publisher behind a logging front; hooks, SyncFinished.Count, returned "
+          "head, latest-synced, requests seen by the publisher and the destination store are compared with a reference model, and with a "
+          "twin run with segmentation off and nothing pre-stored. entries: SyncEntries (EntriesDepthLimit / scoped / -1, segmented), "
+          "SyncOneEntry, SyncHAMTEntries over link trees without shared children. distinct_nontrivial = distinct configurations whose expected "
+          "list is non-empty and where a stop point inside the chain, a binding depth, a segment smaller than the list or a pre-stored block is present."),
+    floors={"quick": {"segmented_cases": 800, "segment_ends_exactly_on_stop_block": 50, "depth_not_multiple_of_segment": 30, "depth_limit_binding": 300, "stop_equals_head": 30,
+                      "with_prestored_blocks": 1000, "discovery_mount": 100, "entries_kind_hamt": 100, "entries_kind_one": 100, "distinct": 1000}},
+    level_text=("Exploration: thousands of real syncs over the configuration space of the quantifier, each compared with an independent "
+                "reference model of 'head back to the stop point, cut at the applicable depth' and with a differential twin; the publisher's "
+                "request log decides what was fetched."),
+    level_note="Trusted: the reference model c01Expect (precedence scoped > first-sync-without-stop > subscriber limit; depth D = D blocks); chains up to 6 blocks.",
+    assumptions=["WithAdsResync together with FirstSyncDepth on a publisher that already has a latest-synced value is documented ambiguously and is not generated",
+                 "link trees with shared children are not generated (they are legitimately visited once per path)"],
+)
